@@ -91,3 +91,57 @@ def arg_or_kw(call: ast.Call, pos: int, name: str) -> ast.expr | None:
     if pos < len(call.args) and not isinstance(call.args[pos], ast.Starred):
         return call.args[pos]
     return None
+
+
+def rotation_centre_obligations(model, rep, fn, clause, rule="A"):
+    """Every ``compose_matrices(centre, rotators)`` call in ``fn`` whose centre is computed from an array shape rotates about the
+    array's centre (n - 1) / 2 on every axis (affine normal form; independent of how the expression is spelled)."""
+    import ast as _ast
+    from ..absint import TOP as _TOP, ExtRef as _Ext, Interp as _Interp, Tup as _Tup
+    from ..domains.affine import mkA as _mkA
+    from ..domains.arrays import Arr as _Arr, ArrayDomain as _AD
+    from ..match import Matcher as _M
+    from ..repo import calls_in as _calls, dotted as _dotted
+    n = 0
+    M = _M(fn)
+    for c in _calls(fn):
+        if not (_dotted(c.func) or "").endswith("compose_matrices") or not c.args:
+            continue
+        expr = M.expr(c.args[0])
+        if not any(isinstance(x, _ast.Attribute) and x.attr == "shape" for x in _ast.walk(expr)) and \
+                not any(isinstance(x, _ast.Name) and "shape" in x.id for x in _ast.walk(expr)):
+            continue  # centre given by the caller (checked at the caller)
+        dom = _AD(model, integer_syms={"r0", "r1", "r2"}, positive_syms={"r0", "r1", "r2"})
+        t = tuple(dom.sym(k) for k in ("r0", "r1", "r2"))
+        env = {"np": _Ext("numpy")}
+        for x in _ast.walk(expr):
+            if isinstance(x, _ast.Name) and x.id not in ("np", "self"):
+                env[x.id] = _Tup(list(t)) if "shape" in x.id else _Arr(t)
+        # attribute chains rooted at self (self._template.shape): evaluate with the field bound to a 3-D array
+        class _D(_AD):
+            def seed_field(self, interp, obj, name, node):
+                return _Arr(t)
+        dom = _D(model, integer_syms={"r0", "r1", "r2"}, positive_syms={"r0", "r1", "r2"})
+        it = _Interp(model, dom, depth=0)
+        try:
+            v = it.eval_in_function(fn, expr, env) if hasattr(it, "eval_in_function") else it.eval(expr, dict(env, **_self_env(it, fn)), fn)
+        except Exception:
+            v = _TOP
+        vv = dom.vec(v) if v is not _TOP else None
+        n += 1
+        rep.instance(rule + ".centre", fn.loc(c))
+        ok = None
+        det = f"centre evaluates to {v!r}"[:160]
+        if vv and len(vv) == 3:
+            ok = all(vv[i].equals(dom.div(dom.add(t[i], _mkA(-1)), _mkA(2))) for i in range(3))
+            det = "" if ok else f"rotation centre {vv!r} is not the array centre (n - 1) / 2"
+        rep.ob(rule, fn.anchor, "rotations are taken about the array centre (n - 1) / 2 (the same centre on both sides of the transform)", ok, det, node=c, fn=fn,
+               clause=clause)
+    return n
+
+
+def _self_env(it, fn):
+    from ..absint import Obj
+    if fn.cls is not None:
+        return {"self": Obj(fn.cls, tag="self")}
+    return {}
